@@ -2,42 +2,42 @@
 PE = 'labtech.runners.process:ProcessExecutor'
 FU = 'labtech.runners.process:Future'
 
-R.enum('FState', ['PENDING', 'CANCELLED', 'FINISHED'])
+R.enum('FutureState', ['PENDING', 'CANCELLED', 'FINISHED'])
 R.func('Fut.id', ['Fut'], 'Fid')
 # A-ids (trusted): itertools.count() hands out distinct ids, so a future is determined by its id
 R.axiom("forall('Fut','Fut', lambda f, g: implies(f.id == g.id, f == g))", name='A-ids')
 
 R.record('Fut', cls=FU,
-    mutable={'_state': 'FState', '_ex': 'Opt[Exc]', '_result': 'Opt[Res]'},
+    mutable={'_state': 'FutureState', '_ex': 'Opt[Exc]', '_result': 'Opt[Res]'},
     immutable={'id': 'Fid'},
-    pure={'done': '(self._state == FState.FINISHED) or (self._state == FState.CANCELLED)',
-          'cancelled': 'self._state == FState.CANCELLED'},
-    ctor={'_state': 'FState.PENDING', '_ex': 'None', '_result': 'None'})
+    pure={'done': '(self._state == FutureState.FINISHED) or (self._state == FutureState.CANCELLED)',
+          'cancelled': 'self._state == FutureState.CANCELLED'},
+    ctor={'_state': 'FutureState.PENDING', '_ex': 'None', '_result': 'None'})
 R.annotation_sorts.update({'Future': 'Fut'})
 
 R.contract(f'{FU}.done', self_type='Fut', returns='Bool', pure=True,
-    ensures=["result == ((self._state == FState.FINISHED) or (self._state == FState.CANCELLED))"], serves=('C11', 'C14', 'C10'))
+    ensures=["result == ((self._state == FutureState.FINISHED) or (self._state == FutureState.CANCELLED))"], serves=('C11', 'C14', 'C10'))
 R.contract(f'{FU}.cancelled', self_type='Fut', returns='Bool', pure=True,
-    ensures=["result == (self._state == FState.CANCELLED)"], serves=('C11', 'C14'))
+    ensures=["result == (self._state == FutureState.CANCELLED)"], serves=('C11', 'C14'))
 R.contract(f'{FU}.set_result', self_type='Fut', params={'result': 'Res'},
-    ensures=["forall('Fut', lambda f: f._state == (FState.FINISHED if f == self else old(f._state)))",
+    ensures=["forall('Fut', lambda f: f._state == (FutureState.FINISHED if f == self else old(f._state)))",
              "forall('Fut', lambda f: implies(f != self, (f._result == old(f._result)) and (f._ex == old(f._ex))))",
-             "(not isnone(self._result)) and (unopt(self._result) == result) and isnone(self._ex) == isnone(old(self._ex))"],
+             "(not isnone(self._result)) and (unopt(self._result) == result)"],
     raises={'FutureStateError': ["old(self.done)", "forall('Fut', lambda f: f._state == old(f._state))"]},
     frame=['Fut._state', 'Fut._result'])
 R.contract(f'{FU}.set_exception', self_type='Fut', params={'ex': 'Exc'},
-    ensures=["forall('Fut', lambda f: f._state == (FState.FINISHED if f == self else old(f._state)))",
+    ensures=["forall('Fut', lambda f: f._state == (FutureState.FINISHED if f == self else old(f._state)))",
              "forall('Fut', lambda f: implies(f != self, (f._result == old(f._result)) and (f._ex == old(f._ex))))",
              "(not isnone(self._ex)) and (unopt(self._ex) == ex)"],
     raises={'FutureStateError': ["old(self.done)", "forall('Fut', lambda f: f._state == old(f._state))"]},
     frame=['Fut._state', 'Fut._ex'])
 R.contract(f'{FU}.cancel', self_type='Fut', params={},
-    ensures=["forall('Fut', lambda f: f._state == (FState.CANCELLED if f == self else old(f._state)))"],
+    ensures=["forall('Fut', lambda f: f._state == (FutureState.CANCELLED if f == self else old(f._state)))"],
     frame=['Fut._state'])
 R.contract(f'{FU}.result', self_type='Fut', params={}, returns='Res',
-    ensures=["old(self._state) == FState.FINISHED", "isnone(self._ex)", "result == unopt(self._result)"],
-    raises={'FutureStateError': ["self._state != FState.FINISHED"],
-            'BaseException': ["self._state == FState.FINISHED", "not isnone(self._ex)", "exc == unopt(self._ex)"]},
+    ensures=["old(self._state) == FutureState.FINISHED", "isnone(self._ex)", "result == unopt(self._result)"],
+    raises={'BaseException': [C("((self._state != FutureState.FINISHED) and exc_is(exc, 'FutureStateError')) or ((self._state == FutureState.FINISHED) and (not isnone(self._ex)) and (exc == unopt(self._ex)))",
+                                'raises the stored exception of a finished future, or FutureStateError when not finished')]},
     frame=[])
 
 R.contract('labtech.runners.process:split_done_futures',
@@ -153,11 +153,11 @@ R.contract(f'{PE}.cancel',
     self_type='Obj[ProcessExecutor]', params={},
     requires=['INV(self)'],
     ensures=['INV(self)', C("empty(PEND(self))", 'queue emptied', serves=('C14', 'C11')),
-             C("forall('Fut', lambda f: f._state == (FState.CANCELLED if f in old(PEND(self)) else old(f._state)))", 'exactly the queued futures are cancelled', serves=('C14', 'C11'))],
+             C("forall('Fut', lambda f: f._state == (FutureState.CANCELLED if f in old(PEND(self)) else old(f._state)))", 'exactly the queued futures are cancelled', serves=('C14', 'C11'))],
     frame=['self._pending_future_to_thunk', 'Fut._state'],
     candidates=[
         "forall('Fut', lambda f: (f in PEND(self)) == ((f in old(PEND(self))) and (f not in __done__)))",
-        "forall('Fut', lambda f: f._state == (FState.CANCELLED if f in __done__ else old(f._state)))",
+        "forall('Fut', lambda f: f._state == (FutureState.CANCELLED if f in __done__ else old(f._state)))",
         "forall('Fut', lambda f: implies(f in PEND(self), not f.done))",
     ])
 
@@ -165,13 +165,13 @@ R.contract(f'{PE}.stop',
     self_type='Obj[ProcessExecutor]', params={},
     requires=['INV(self)'],
     ensures=['INV(self)', C("empty(RUN(self))", 'nothing left running', serves=('C14', 'C11')),
-             C("forall('Fut', lambda f: f._state == (FState.CANCELLED if exists('Fid', lambda i: (i in old(RUN(self))) and (old(RUN(self))[i][0] == f)) else old(f._state)))",
+             C("forall('Fut', lambda f: f._state == (FutureState.CANCELLED if exists('Fid', lambda i: (i in old(RUN(self))) and (old(RUN(self))[i][0] == f)) else old(f._state)))",
                'exactly the running futures are cancelled', serves=('C14', 'C11'))],
     frame=['self._running_id_to_future_and_process', 'Fut._state'],
     candidates=[
         "forall('Fid', lambda i: (i in RUN(self)) == ((i in old(RUN(self))) and (i not in __done__)))",
         "forall('Fid', lambda i: implies(i in RUN(self), RUN(self)[i] == old(RUN(self))[i]))",
-        "forall('Fut', lambda f: f._state == (FState.CANCELLED if exists('Fid', lambda i: (i in __done__) and (old(RUN(self))[i][0] == f)) else old(f._state)))",
+        "forall('Fut', lambda f: f._state == (FutureState.CANCELLED if exists('Fid', lambda i: (i in __done__) and (old(RUN(self))[i][0] == f)) else old(f._state)))",
         "forall('Fid', lambda i: implies(i in RUN(self), not RUN(self)[i][0].done))",
         "forall('Fid', lambda i: implies(i in RUN(self), RUN(self)[i][0].id == i))",
     ])
